@@ -95,7 +95,19 @@ func tokenBounds(text string) [][2]int {
 // Edits1 returns the single-token edits of text: delete each token, duplicate each token,
 // insert each alphabet token at each boundary and (full=true) replace each token by each
 // alphabet token.
-func Edits1(text string, full bool) []string {
+func Edits1(text string, full bool) []string { return EditsLevel(text, map[bool]int{false: 1, true: 2}[full]) }
+
+// QuickEditTokens is the reduced insertion alphabet of the quick tier.
+var QuickEditTokens = []string{"=", "{", "}", "\"", ".", ",", "\n", "x"}
+
+// EditsLevel: 0 = delete/duplicate + insertion of the reduced alphabet; 1 = full insertion
+// alphabet; 2 = also replacement of every token by every alphabet token.
+func EditsLevel(text string, level int) []string {
+	full := level >= 2
+	alphabet := EditTokens
+	if level == 0 {
+		alphabet = QuickEditTokens
+	}
 	seen := map[string]bool{text: true}
 	var out []string
 	add := func(s string) {
@@ -120,7 +132,7 @@ func Edits1(text string, full bool) []string {
 		if !bounds[off] {
 			continue
 		}
-		for _, t := range EditTokens {
+		for _, t := range alphabet {
 			add(text[:off] + t + text[off:])
 		}
 	}
